@@ -14,6 +14,7 @@
  * Scenarios: 0 mixed; 1 write-heavy + memtable readers (skiplist);
  * 2 snapshots/iterators; 3 compaction/backup/property; 4 tiny block cache and
  * few open files (table-cache eviction, reads of files being retired);
+ * 6 more table files (~200 one-key tables made before the threads start) than the table cache holds (64), read-heavy;
  * 5 TWO handles (two databases) in one process, half of the threads on each: whatever the library
  * keeps in storage of static duration is shared between them (Snappy always on in this scenario).
  *
@@ -49,6 +50,20 @@ typedef struct {
   long gets, hits, writes, iters, steps, snaps, compacts, props, backups, bad;
 } worker_t;
 
+/* schedule perturbation inside the library (link with -Wl,--wrap=ldb_table_internal_get): every few table lookups the
+ * reading thread pauses before it touches the table object, which gives the other threads time to evict that table
+ * from the table cache -- harmless as long as the reader pins its cache entry until the lookup is over */
+#include <unistd.h>
+struct ldb_table_s; struct ldb_readopt_s; struct ldb_slice_s;
+int __real_ldb_table_internal_get(struct ldb_table_s *table, const struct ldb_readopt_s *options, const struct ldb_slice_s *k,
+                                  void *arg, void (*handle_result)(void *, const struct ldb_slice_s *, const struct ldb_slice_s *));
+static volatile int g_pause_reads = 0; static volatile unsigned g_read_ctr = 0;
+int __wrap_ldb_table_internal_get(struct ldb_table_s *table, const struct ldb_readopt_s *options, const struct ldb_slice_s *k,
+                                  void *arg, void (*handle_result)(void *, const struct ldb_slice_s *, const struct ldb_slice_s *)) {
+  if (g_pause_reads && (__atomic_fetch_add(&g_read_ctr, 1, __ATOMIC_RELAXED) % 5) == 0) usleep(150);
+  return __real_ldb_table_internal_get(table, options, k, arg, handle_result);
+}
+
 static int mkkey(char *buf, unsigned k) { return sprintf(buf, "key%06u", k); }
 
 /* value = key bytes, then a tag byte repeated; verifiable without shared state */
@@ -68,7 +83,7 @@ static int valok(const ldb_slice_t *key, const ldb_slice_t *val) {
   return 1;
 }
 
-static const int MIX[6][10] = {
+static const int MIX[7][10] = {
   /* put del batch get iter snap compact prop sizes backup */
   { 30, 6, 8, 30, 8, 6, 2, 4, 4, 2 },
   { 45, 8, 12, 30, 3, 1, 0, 1, 0, 0 },
@@ -76,6 +91,7 @@ static const int MIX[6][10] = {
   { 30, 5, 8, 15, 5, 3, 10, 10, 8, 6 },
   { 25, 5, 6, 45, 12, 3, 2, 1, 1, 0 },
   { 45, 6, 10, 20, 5, 3, 3, 2, 2, 0 },       /* 5: two handles, write-heavy (flushes and compactions on both) */
+  { 0, 0, 0, 85, 13, 1, 0, 1, 0, 0 },        /* 6: many more table files than table-cache entries, read-heavy: constant eviction under readers */
 };
 
 static void *worker(void *arg) {
@@ -143,7 +159,7 @@ static void *worker(void *arg) {
         w->steps++;
         if (below(&r, 16) == 0) back = !back;
         if (back) ldb_iter_prev(it); else ldb_iter_next(it);
-        if ((n & 15) == 0 && below(&r, 4) == 0) {       /* writes while the iterator is open */
+        if (w->scenario != 6 && (n & 15) == 0 && below(&r, 4) == 0) {       /* writes while the iterator is open */
           klen = mkkey(kb2, below(&r, NKEYS)); key = ldb_slice(kb2, klen);
           val = ldb_slice(vb, mkval(vb, kb2, klen, &r));
           ldb_put(w->db, &key, &val, NULL); w->writes++;
@@ -205,7 +221,7 @@ int main(int argc, char **argv) {
   long g = 0, h = 0, wr = 0, it = 0, st = 0, sn = 0, cp = 0, pr = 0, bk = 0, bad = 0, rows = 0;
   char *v = NULL; int l0 = -1;
   if (argc < 6) { fprintf(stderr, "usage: k10 dir seed scenario nthreads nops\n"); return 2; }
-  seed = strtoull(argv[2], 0, 10); scenario = atoi(argv[3]) % 6; nthreads = atoi(argv[4]); nops = atoi(argv[5]);
+  seed = strtoull(argv[2], 0, 10); scenario = atoi(argv[3]) % 7; nthreads = atoi(argv[4]); nops = atoi(argv[5]);
   if (nthreads < 1) nthreads = 1; if (nthreads > MAXT) nthreads = MAXT;
   sprintf(path, "%s/db", argv[1]);
   opt.create_if_missing = 1;
@@ -215,7 +231,7 @@ int main(int argc, char **argv) {
   opt.compression = (seed & 1) ? LDB_SNAPPY_COMPRESSION : LDB_NO_COMPRESSION;
   opt.filter_policy = (seed & 2) ? ldb_bloom_default : NULL;
   opt.use_mmap = (seed & 4) ? 1 : 0;
-  if (scenario == 4) {
+  if (scenario == 4 || scenario == 6) {
     cache = ldb_lru_create(16 * 1024); opt.block_cache = cache;
     opt.max_open_files = 20;
   }
@@ -227,6 +243,17 @@ int main(int argc, char **argv) {
     rc = ldb_open(path2, &opt, &db2);
     if (rc != LDB_OK) { printf("K10 open (second handle) failed: %s\n", ldb_strerror(rc)); return 2; }
   }
+  if (scenario == 6) g_pause_reads = 1;
+  if (scenario == 6) { /* one tiny table per key: put + compact of exactly that key (flush, then pushed down by trivial moves) */
+    rng_t r; char kb[32], *vb = malloc(8192); r.s = seed ^ 0x66;
+    for (i = 0; i < 200; i++) {
+      int klen = mkkey(kb, (unsigned)(i * 3) % NKEYS); ldb_slice_t k = ldb_slice(kb, klen), val;
+      val = ldb_slice(vb, mkval(vb, kb, klen, &r)); ldb_put(db, &k, &val, NULL);
+      ldb_compact(db, &k, &k);
+    }
+    free(vb);
+  }
+  if (scenario != 6)
   { /* some data before the threads start, and the shared snapshot */
     rng_t r; char kb[32], *vb = malloc(8192); r.s = seed;
     for (i = 0; i < 300; i++) {
